@@ -46,6 +46,9 @@ def run(ck):
         d = int(rng.integers(2, 5))
         refill = int(rng.choice([1, 2, 3, 5, 8, 15, 40, 1500]))
         nv = int(rng.choice([0, 1, 3, 10, 40, 150]))
+        if i % 10 == 7:
+            # tiny leaves (fewer than five samples: 20% of the leaf rounds down to none) that do receive routed validation points, fewer than the refill size
+            L = [3, 4][(i // 10) % 2]; n = int(rng.integers(10, 36)); nv = 40; refill = int(rng.choice([15, 40, 1500]))
         f = 0.0 if i % 6 else 0.1
         method = ['top_vector_agop_on_subset', 'random_pca', 'linear', 'pca', 'rf_criterion', 'random', 'random_agop_on_subset', 'random_global_agop',
                   'fixed_vector'][i % 9]
